@@ -12,6 +12,16 @@ kind ∈ {absent, span (typed / text / upper-case text), metric (same), unknown 
   mixed-case text (`Kind::from_str` trims and ignores ASCII case), and as an ambient `evt_kind`
   pushed through a `ThreadLocalCtxt` frame
 × extent ∈ {none, point, range, empty range}
+× how far away the extent's instants are ∈ {near the present; every instant beyond what fits in u64
+  nanoseconds since the epoch (later than 2554-07-21T23:34:33.709551615Z, up to `Timestamp::MAX`); a range
+  that starts within u64 nanoseconds and ends beyond; exactly at that boundary (u64::MAX ns, +1 ns, -1 ns);
+  starting at / being `Timestamp::MIN`; ending at / being `Timestamp::MAX`} - extreme but VALID extents
+  (`FarC`). The statement routes by kind and by the SHAPE of the extent (range or not), never by how far
+  away its instants are, so the routing table below does not look at `FarC` at all; how such a timestamp
+  is encoded when it does not fit is C13's business (the unchanged tree wraps it silently) and is not
+  judged here. These events are part of the systematic walk of every routing scenario and of the random
+  classes that the concurrent / queue-pressure / encoder-rejection sections draw from, so they take part
+  in the discard-counter accounting like any other event.
 × metric value ∈ {int, float, numeric sequence, empty sequence, text, numeric-looking text, bool,
   nested sequence, sequence with text, null, missing, integer beyond i64 (u64 / u128 / i128, alone or in a sequence)}
 × metric aggregation ∈ {absent, count, sum, min, max, last, unknown}.
@@ -191,6 +201,49 @@ impl ExtentC {
     }
 }
 
+/// How far away the instants of the extent are. Every class is a VALID extent (`Timestamp::MIN ..=
+/// Timestamp::MAX`, start <= end); the routing table never looks at it.
+#[derive(Clone, Copy, Debug, PartialEq, Eq, Hash)]
+enum FarC {
+    /// 2024, as in every other section
+    Near,
+    /// every instant lies beyond u64 nanoseconds since the epoch (> 2554-07-21T23:34:33.709551615Z)
+    BeyondU64,
+    /// a range that starts within u64 nanoseconds and ends beyond
+    StraddleU64,
+    /// exactly u64::MAX ns / one more / one less
+    AtU64Boundary,
+    /// a range from `Timestamp::MIN`; a point / empty range AT `Timestamp::MIN`
+    FromMin,
+    /// a range up to `Timestamp::MAX`; a point / empty range AT `Timestamp::MAX`
+    ToMax,
+}
+
+const FARS: [FarC; 5] = [FarC::BeyondU64, FarC::StraddleU64, FarC::AtU64Boundary, FarC::FromMin, FarC::ToMax];
+
+/// u64::MAX nanoseconds = 18_446_744_073.709_551_615 s after the epoch
+const U64_NANOS_SECS: u64 = 18_446_744_073;
+const U64_NANOS_SUB: u32 = 709_551_615;
+/// `Timestamp::MAX` = 9999-12-31T23:59:59.999999999Z
+const TS_MAX_SECS: u64 = 253_402_300_799;
+
+/// Kinds of the systematic walk over the far-away extents (span / metric / neither, carried in different ways).
+const FAR_WALK_KINDS: [KindC; 9] = [
+    KindC::SpanTyped,
+    KindC::SpanText,
+    KindC::SpanOwned,
+    KindC::SpanAmbient,
+    KindC::MetricTyped,
+    KindC::MetricString,
+    KindC::MetricAmbient,
+    KindC::Absent,
+    KindC::UnknownText,
+];
+const FAR_WALK_EXTENTS: [ExtentC; 3] = [ExtentC::Range, ExtentC::EmptyRange, ExtentC::Point];
+/// the near-present walk (kind x extent) and the far-away walk (kind family x extent shape x distance)
+const NEAR_WALK: usize = KINDS.len() * EXTENTS.len();
+const FAR_WALK: usize = FAR_WALK_KINDS.len() * FAR_WALK_EXTENTS.len() * FARS.len();
+
 #[derive(Clone, Copy, Debug, PartialEq, Eq, Hash)]
 enum ValC {
     Int,
@@ -347,6 +400,8 @@ struct Ev {
     vid: u64,
     kind: KindC,
     extent: ExtentC,
+    /// how far away the instants of the extent are (never looked at by the routing table)
+    far: FarC,
     val: ValC,
     agg: Option<&'static str>,
     /// selects the variant inside the class (which int, serde vs sval capture, ...)
@@ -430,8 +485,72 @@ impl sval::Value for FailingVal {
 static FAILING: FailingVal = FailingVal;
 
 impl Ev {
+    /// Extent class for signatures and evidence: the shape, plus how far away it is when not near the present.
+    fn extent_name(&self) -> &'static str {
+        match (self.extent, self.far) {
+            (e, FarC::Near) | (e @ ExtentC::None, _) => e.name(),
+            (ExtentC::Range, FarC::BeyondU64) => "range-beyond-u64-nanos",
+            (ExtentC::Range, FarC::StraddleU64) => "range-straddling-u64-nanos",
+            (ExtentC::Range, FarC::AtU64Boundary) => "range-at-the-u64-nanos-boundary",
+            (ExtentC::Range, FarC::FromMin) => "range-from-timestamp-min",
+            (ExtentC::Range, FarC::ToMax) => "range-to-timestamp-max",
+            (ExtentC::EmptyRange, FarC::BeyondU64 | FarC::StraddleU64) => "empty-range-beyond-u64-nanos",
+            (ExtentC::EmptyRange, FarC::AtU64Boundary) => "empty-range-at-the-u64-nanos-boundary",
+            (ExtentC::EmptyRange, FarC::FromMin) => "empty-range-at-timestamp-min",
+            (ExtentC::EmptyRange, FarC::ToMax) => "empty-range-at-timestamp-max",
+            (ExtentC::Point, FarC::BeyondU64 | FarC::StraddleU64) => "point-beyond-u64-nanos",
+            (ExtentC::Point, FarC::AtU64Boundary) => "point-at-the-u64-nanos-boundary",
+            (ExtentC::Point, FarC::FromMin) => "point-at-timestamp-min",
+            (ExtentC::Point, FarC::ToMax) => "point-at-timestamp-max",
+        }
+    }
+
+    fn is_far(&self) -> bool {
+        self.far != FarC::Near && self.extent != ExtentC::None
+    }
+
+    /// The instants of the extent: (start of a range, end / the point). `None` without an extent.
+    fn instants(&self) -> Option<(Option<emit::Timestamp>, emit::Timestamp)> {
+        let near_a = ts(self.vid % 100_000, 5);
+        let near_b = ts(self.vid % 100_000 + 3, 7);
+        let at = |secs: u64, nanos: u32| emit::Timestamp::from_unix(Duration::new(secs, nanos)).expect("an instant within Timestamp::MIN ..= Timestamp::MAX");
+        let v = self.variant >> 24;
+        let w = v / 16;
+        // an instant beyond u64 nanoseconds, with room for a range of up to 1 000 000 s after it
+        let beyond = match v % 4 {
+            0 => at(U64_NANOS_SECS + 1 + w % 1_000_000, (w % 1_000_000_000) as u32),
+            1 => at(U64_NANOS_SECS, U64_NANOS_SUB + 1 + (w % 1_000) as u32),
+            2 => at(2 * U64_NANOS_SECS + w % 10, 5),
+            _ => at(TS_MAX_SECS - 2_000_000 - w % 100_000, 0),
+        };
+        let exact = at(U64_NANOS_SECS, U64_NANOS_SUB);
+        let ns = Duration::from_nanos(1);
+        let one = match self.far {
+            FarC::Near => near_b,
+            FarC::BeyondU64 | FarC::StraddleU64 => beyond,
+            FarC::AtU64Boundary => [exact, exact + ns, exact - ns][(w % 3) as usize],
+            FarC::FromMin => emit::Timestamp::MIN,
+            FarC::ToMax => emit::Timestamp::MAX,
+        };
+        match self.extent {
+            ExtentC::None => None,
+            ExtentC::Point => Some((None, one)),
+            ExtentC::EmptyRange => Some((Some(one), one)),
+            ExtentC::Range => Some(match self.far {
+                FarC::Near => (Some(near_a), near_b),
+                FarC::BeyondU64 => (Some(beyond), beyond + Duration::new(1 + w % 1_000_000, 3)),
+                FarC::StraddleU64 => (Some([near_a, at(U64_NANOS_SECS - 1 - w % 100, (w % 1_000_000_000) as u32), exact][(w % 3) as usize]), beyond),
+                FarC::AtU64Boundary => [(Some(exact), exact + ns), (Some(exact + ns), exact + ns + ns), (Some(exact - ns), exact)][(w % 3) as usize],
+                FarC::FromMin => (Some(emit::Timestamp::MIN), [near_b, beyond, emit::Timestamp::MAX][(w % 3) as usize]),
+                FarC::ToMax => (Some([near_a, beyond, emit::Timestamp::MIN, emit::Timestamp::MAX - ns][(w % 4) as usize]), emit::Timestamp::MAX),
+            }),
+        }
+    }
+
     fn class_json(&self) -> Json {
-        json!({"vid": self.vid, "kind": self.kind.name(), "extent": self.extent.name(), "metric_value": self.val.name(),
+        let instants = self.instants().filter(|_| self.is_far()).map(|(a, b)| json!({"start": a.map(|t| t.to_string()), "end_or_point": b.to_string(),
+            "unix_nanos_fit_u64": [a.map(|t| t.to_unix().as_nanos() <= u64::MAX as u128), Some(b.to_unix().as_nanos() <= u64::MAX as u128)]}));
+        json!({"vid": self.vid, "kind": self.kind.name(), "extent": self.extent_name(), "extent_instants": instants, "metric_value": self.val.name(),
                "metric_agg": self.agg, "variant": self.variant, "with_trace_ids": self.with_ids,
                "failing_value": self.bad.map(|b| format!("{}:{}:{}", b.cap.name(), ["first", "middle", "last"][b.pos as usize % 3], if b.hole { "hole" } else { "no-hole" }))})
     }
@@ -583,14 +702,10 @@ fn emit_one(otlp: &emit_otlp::Otlp, ev: &Ev, st: &Store) {
     let mdl = emit::Path::new_raw(if v / 16 % 2 == 0 { "verif::c14" } else { "verif::c14::other" });
     let with_hole = [emit::template::Part::text_ref(&name), emit::template::Part::text_ref(" failing "), emit::template::Part::hole_ref("bad")];
     let tpl = if ev.bad.map(|b| b.hole).unwrap_or(false) { emit::Template::new_ref(&with_hole) } else { emit::Template::literal_ref(&name) };
-    let a = ts(ev.vid % 100_000, 5);
-    let b = ts(ev.vid % 100_000 + 3, 7);
-    let extent: Option<emit::Extent> = match ev.extent {
-        ExtentC::None => None,
-        ExtentC::Point => Some(emit::Extent::point(b)),
-        ExtentC::Range => Some(emit::Extent::range(a..b)),
-        ExtentC::EmptyRange => Some(emit::Extent::range(b..b)),
-    };
+    let extent: Option<emit::Extent> = ev.instants().map(|(start, end)| match start {
+        None => emit::Extent::point(end),
+        Some(start) => emit::Extent::range(start..end),
+    });
     if ev.kind.is_ambient() {
         // the kind travels through a context frame (buffered there as an owned value) and reaches the
         // emitter as an ambient property behind the event's own
@@ -607,8 +722,17 @@ fn emit_one(otlp: &emit_otlp::Otlp, ev: &Ev, st: &Store) {
 fn gen_event(g: &mut Rng, vid: u64, k: u64) -> Ev {
     // the first events of a scenario walk the classes systematically, the rest is drawn with a bias
     // towards the kinds that matter
-    let (kind, extent, val) = if k < (KINDS.len() * EXTENTS.len()) as u64 {
-        (KINDS[(k as usize) % KINDS.len()], EXTENTS[(k as usize / KINDS.len()) % EXTENTS.len()], *g.pick(&VALS))
+    let (kind, extent, far, val) = if k < NEAR_WALK as u64 {
+        (KINDS[(k as usize) % KINDS.len()], EXTENTS[(k as usize / KINDS.len()) % EXTENTS.len()], FarC::Near, *g.pick(&VALS))
+    } else if k < (NEAR_WALK + FAR_WALK) as u64 {
+        // extreme but valid extents: kind family x extent shape x distance, walked like the near-present classes;
+        // metric kinds mostly with a value that makes them a metric sample
+        let j = k as usize - NEAR_WALK;
+        let kind = FAR_WALK_KINDS[j % FAR_WALK_KINDS.len()];
+        let extent = FAR_WALK_EXTENTS[j / FAR_WALK_KINDS.len() % FAR_WALK_EXTENTS.len()];
+        let far = FARS[j / (FAR_WALK_KINDS.len() * FAR_WALK_EXTENTS.len()) % FARS.len()];
+        let val = if kind.is_metric() && g.chance(2, 3) { *g.pick(&[ValC::Int, ValC::Float, ValC::IntSeq, ValC::FloatSeq, ValC::BigInt]) } else { *g.pick(&VALS) };
+        (kind, extent, far, val)
     } else {
         let kind = match g.below(10) {
             0..=3 => *g.pick(&KINDS[8..16]),
@@ -617,9 +741,12 @@ fn gen_event(g: &mut Rng, vid: u64, k: u64) -> Ev {
         };
         // metric kinds get an integer beyond i64 (alone or in a sequence) particularly often
         let val = if kind.is_metric() && g.chance(1, 5) { *g.pick(&[ValC::BigInt, ValC::BigIntSeq]) } else { *g.pick(&VALS) };
-        (kind, *g.pick(&EXTENTS), val)
+        let extent = *g.pick(&EXTENTS);
+        // one extent in four is far away (beyond u64 nanoseconds, at the boundary, at Timestamp::MIN / MAX)
+        let far = if extent != ExtentC::None && g.chance(1, 4) { *g.pick(&FARS) } else { FarC::Near };
+        (kind, extent, far, val)
     };
-    Ev { vid, kind, extent, val, agg: *g.pick(&AGGS), variant: g.next(), with_ids: g.chance(1, 3), bad: None }
+    Ev { vid, kind, extent, far, val, agg: *g.pick(&AGGS), variant: g.next(), with_ids: g.chance(1, 3), bad: None }
 }
 
 struct Scenario {
@@ -643,8 +770,9 @@ fn generate(seed: u64, case: u64, n_events: u64) -> Scenario {
     let transport = Transport::ALL[(case / 8 % 3) as usize];
     let gzip = case / 24 % 2 == 0;
     // rotate the systematic walk so that different cases start at different classes
-    let rot = g.below(108);
-    let events = (0..n_events).map(|k| gen_event(&mut g, case * 1_000_000 + k, (k + rot) % n_events.max(108))).collect();
+    let walk = (NEAR_WALK + FAR_WALK) as u64;
+    let rot = g.below(walk);
+    let events = (0..n_events).map(|k| gen_event(&mut g, case * 1_000_000 + k, (k + rot) % n_events.max(walk))).collect();
     Scenario { case, subset, transport, gzip, events }
 }
 
@@ -668,7 +796,7 @@ fn run(r: &mut Report, sc: &Scenario, seed: u64) {
     for ev in &sc.events {
         if let Err(msg) = catch(|| emit_one(&otlp, ev, &st)) {
             r.violation(
-                &format!("C14:panic-in-emit:kind={}:extent={}:value={}", ev.kind.name(), ev.extent.name(), ev.val.name()),
+                &format!("C14:panic-in-emit:kind={}:extent={}:value={}", ev.kind.name(), ev.extent_name(), ev.val.name()),
                 &format!("Otlp::emit panicked: {}", msg),
                 case_json(ev.class_json()),
             );
@@ -731,7 +859,7 @@ fn run(r: &mut Report, sc: &Scenario, seed: u64) {
         let w = want(ev, sc.subset);
         // one evaluation = one event whose destination is judged against the routing table
         r.eval();
-        r.nontrivial(&(sc.subset, sc.transport, ev.kind, ev.extent, ev.val, ev.agg.is_some()));
+        r.nontrivial(&(sc.subset, sc.transport, ev.kind, ev.extent, ev.far, ev.val, ev.agg.is_some()));
         // signature class: the kind family, the extent and whether the value is numeric (the exact
         // spelling of the kind and the exact value are in the case)
         let class = format!(
@@ -743,7 +871,7 @@ fn run(r: &mut Report, sc: &Scenario, seed: u64) {
             } else {
                 "other"
             },
-            ev.extent.name(),
+            ev.extent_name(),
             match ev.val.numeric() {
                 Numeric::Yes if matches!(ev.val, ValC::BigInt | ValC::BigIntSeq) => ev.val.name(),
                 Numeric::Yes => "numeric",
@@ -768,6 +896,20 @@ fn run(r: &mut Report, sc: &Scenario, seed: u64) {
             continue;
         }
         let got1 = got.first().copied();
+        if ev.is_far() {
+            // extreme but valid extents: where they went, per kind family and extent class (judged below like any other event)
+            r.observe("far-extent:events-judged", 1);
+            r.observe(&format!("far-extent:{}:kind={}:went-to-{}", ev.extent_name(), kind_family(ev), got1.map(|s| s.name()).unwrap_or("none")), 1);
+            if ev.kind.is_span() && matches!(ev.extent, ExtentC::Range | ExtentC::EmptyRange) && sc.subset & Signal::Traces.bit() != 0 {
+                r.observe("far-extent:span-with-a-range-extent:traces-configured", 1);
+            }
+            if matches!(w, Want::Exactly(Some(Signal::Metrics))) {
+                r.observe("far-extent:metric-sample:metrics-configured", 1);
+            }
+            if matches!(w, Want::Exactly(None)) {
+                r.observe("far-extent:no-configured-signal-takes-it:discard-expected", 1);
+            }
+        }
         match w {
             Want::Exactly(want_sig) => {
                 if ev.kind.is_metric() && matches!(ev.val, ValC::BigInt | ValC::BigIntSeq) {
@@ -1397,6 +1539,8 @@ fn run_concurrent(r: &mut Report, seed: u64, case: u64, thorough: bool) {
     let expected_discards: u64 = per_thread_discards.iter().sum();
     let n_exported: usize = exported.iter().map(|v| v.len()).sum();
     r.observe("concurrent:threads", n_threads as u64);
+    r.observe("concurrent:far-extent-classes-among-the-discarded", discard_pool.iter().filter(|e| e.is_far()).count() as u64);
+    r.observe("concurrent:far-extent-classes-among-the-exported", export_pool.iter().filter(|(e, _)| e.is_far()).count() as u64);
     r.observe("concurrent:events-emitted", expected_discards + n_exported as u64);
     if !otlp.blocking_flush(Duration::from_secs(120)) {
         r.observe("concurrent:scenarios-inconclusive", 1);
@@ -1578,6 +1722,7 @@ fn run_queue_pressure(r: &mut Report, seed: u64, case: u64) {
         inconclusive(r, "no event classes found for a configured signal".into());
         return;
     }
+    r.observe("queue-full:far-extent-classes-in-the-pools", pools.values().flatten().filter(|e| e.is_far()).count() as u64);
     let mut sent: Vec<Ev> = Vec::new();
     let mut vid = 3_000_000_000 + case * 1_000_000;
     let mut send = |sig: Signal, g: &mut Rng, sent: &mut Vec<Ev>| {
@@ -1706,7 +1851,7 @@ fn run_queue_pressure(r: &mut Report, seed: u64, case: u64) {
                     truncated,
                     ev.vid,
                     ev.kind.name(),
-                    ev.extent.name(),
+                    ev.extent_name(),
                     want_sig.name(),
                     other.name(),
                     if also { " as well" } else { " instead" }
@@ -1819,6 +1964,7 @@ fn run_encoder_reject(r: &mut Report, seed: u64, case: u64) {
         }
     }
     r.observe("encoder-rejected:events-emitted", events.len() as u64);
+    r.observe("encoder-rejected:far-extent-events-emitted", events.iter().filter(|e| e.is_far()).count() as u64);
     if !otlp.blocking_flush(Duration::from_secs(60)) {
         r.observe("encoder-rejected:scenarios-inconclusive", 1);
         r.inconclusive("encoder-rejection scenario: blocking_flush returned false (60 s)");
@@ -1970,7 +2116,8 @@ fn main() {
          combinations whose event was accounted for at the collector",
     );
     let seed = args.seed;
-    let n_events = args.get_u64("events", if args.thorough() { 800 } else { 200 });
+    // the systematic walk is 108 near-present classes + 135 far-away-extent classes; the rest of a scenario is drawn
+    let n_events = args.get_u64("events", if args.thorough() { 900 } else { 300 });
 
     if let Some(path) = &args.replay {
         let case = load_replay(path);
